@@ -303,16 +303,26 @@ F53_REPLAY = dict(kind='lay', source='import self.a;\nimport self.b;\nprint(a.x)
                   files={'a.lay': 'export let x = 1;\nimport self.b;\nexport let y = 2;\n', 'b.lay': 'import self.a;\nexport fn getX() { a.x }\nexport fn getY() { a.y }\n'},
                   bad_re='panicked', bad_exit=[101, 134, -6], expect_stdout_re=r'end')
 
+F67_REPLAY = dict(kind='lay', source='import self.lib;\nimport self.other;\ntry { print(other.partial.late()); } catch e: Error { print("error"); }\nprint("end");\n',
+                  files={'lib.lay': "import self.other;\nexport fn late() { 'late' }\n", 'other.lay': 'import self.lib;\nexport let partial = lib;\n'},
+                  bad_re='panicked', bad_exit=[101, 134, -6], note='invoke on an import object that is older than the export it names')
+
 inst_len = z3.Function('instance_len', BV64, BV64)
 
 
-def _in_bounds(res, opname):
+def _in_bounds(res, opname, kind='property', slot_off=2):
     """the by-name property ops on an instance whose length is NOT tied to its class's field table: every slot they address is inside
     the instance"""
     P = get_program('vm')
     Wd = World(P)
     e, W = Wd.e, Wd.W
     f = P.lookup('vm::Vm::' + opname)
+    # Instance::get_field / set_field run from MIR here: whether THEY stay inside the instance is part of the question
+    e.models = [m_ for m_ in e.models if 'Instance::get_field' not in m_[2] and 'Instance::set_field' not in m_[2]]
+    for meth in ('get_field', 'set_field'):
+        fm = P.lookup('Instance::' + meth)
+        if fm is not None:
+            e.model(r'^(laythe_core::)?(object::)?(instance::)?Instance::' + meth + '$', lambda e_, a, c, fm=fm: e_.exec_fn(fm, list(a), 0, None))
 
     def m_inst_index(e_, a, c):
         i = object_of(e_, a[0])
@@ -335,10 +345,10 @@ def _in_bounds(res, opname):
         st = W.fresh_state(e)
         const_idx = z3.Concat(z3.Select(st.code.arr, st.ip + 1), z3.Select(st.code.arr, st.ip))
         name = const_str(const_idx)
-        slot = z3.ZeroExt(32, z3.Concat(*[z3.Select(st.code.arr, st.ip + 2 + k) for k in (3, 2, 1, 0)]))
-        info = Wd.cache_state(e, 'property', slot, name, False)
+        slot = z3.ZeroExt(32, z3.Concat(*[z3.Select(st.code.arr, st.ip + slot_off + k) for k in (3, 2, 1, 0)]))
+        info = Wd.cache_state(e, kind, slot, name, False)
         e.path_state['icache_cell'] = Cell(info['ic'])
-        e.assume(Wd.inv(e, 'property', info, name, False))
+        e.assume(Wd.inv(e, kind, info, name, False))
         try:
             e.call(f, [Ref(st.vm_cell)])
         except PathEnd as pe:
@@ -351,7 +361,7 @@ def _in_bounds(res, opname):
         if r.kind == 'oob' or (r.kind == 'panic' and 'index out of bounds' in str(r.info)):
             res.fail(f'C13.K1:{opname}: a field slot of the class is used on an instance that is shorter',
                      f'{opname} indexes the instance with the slot its CLASS has for the name; an instance created before the class gained the field (the import object of a '
-                     'module that exports more later: circular imports) is shorter, the host panics (index out of bounds)', {'path': str(r.info)}, replay=F53_REPLAY)
+                     'module that exports more later: circular imports) is shorter, the host panics (index out of bounds)', {'path': str(r.info)}, replay=F67_REPLAY if opname == 'op_invoke' else F53_REPLAY)
         elif r.kind in ('panic', 'unreachable', 'ub', 'diverge', 'depth'):
             s = str(r.info)
             if 'to_obj' in s or 'Expected object' in s or 'panic_fmt' in s:
@@ -371,3 +381,4 @@ def k1_slots_in_bounds(res, tier):
     globals()['END_KINDS'] = _EK
     for op in ('op_get_prop_by_name', 'op_set_prop_by_name'):
         _in_bounds(res, op)
+    _in_bounds(res, 'op_invoke', 'invoke', 3)
